@@ -68,6 +68,9 @@ func (v *Violation) signature(harness string) string {
 		if v.Label == "hang" {
 			return harness + "|panic|hang" // the budget runs out at an arbitrary place
 		}
+		if v.Label == "alloc" && strings.Contains(v.Msg, "budget") {
+			return harness + "|panic|alloc-budget" // likewise
+		}
 		return harness + "|panic|" + v.Label + "|" + fn
 	}
 	return harness + "|" + v.Kind + "|" + v.Label
